@@ -32,7 +32,7 @@ theorem rtInfo_guides_ids (i : (Info P)) :
   | some gs => simp [List.map_map, Function.comp_def, sortGuide_id]
 
 /-- what `load(save(f))` returns can be saved again: it is a valid font -/
-theorem rtFont_valid (f : (Font P)) (hv : ValidFont L f) : ValidFont L (rtFont L f) where
+theorem rtFont_valid (N : NormLaws L) (f : (Font P)) (hv : ValidFont L f) : ValidFont L (rtFont L f) where
   fv := rfl
   noKey := by
     simp only [rtFont, rtLib]
@@ -78,7 +78,7 @@ theorem rtFont_valid (f : (Font P)) (hv : ValidFont L f) : ValidFont L (rtFont L
     obtain ⟨l0, hl0, rfl⟩ := hl
     simp only [rtLayer, List.mem_map] at hg
     obtain ⟨g0, hg0, rfl⟩ := hg
-    exact L.norm_ok g0.tok (hv.glyphsOK l0 hl0 g0 hg0)
+    exact N.norm_ok g0.tok (hv.glyphsOK l0 hl0 g0 hg0)
   restValid := hv.restValid
 
 theorem numOK_ofInt (k : ℤ) : NumOK (NumV.ofInt k) := by
@@ -174,12 +174,12 @@ theorem rtFont_numbers (f : (Font P)) (hn : NumbersOK f) : NumbersOK (rtFont L f
 /-- **C04, norad's own output.**  For every valid font inside the number guards: the font obtained by
     save + load can be saved and loaded again, and that returns the same font (layers in order,
     colours, libs as maps, numbers within tolerance, feature text up to CR LF). -/
-theorem norad_output_is_fixed_point (f : (Font P)) (hv : ValidFont L f) (hn : NumbersOK f) :
+theorem norad_output_is_fixed_point (N : NormLaws L) (f : (Font P)) (hv : ValidFont L f) (hn : NumbersOK f) :
     ∃ t f', saveFont f = .ok t ∧ loadFont t = .ok f' ∧
       ∃ t' f'', saveFont f' = .ok t' ∧ loadFont t' = .ok f'' ∧ FontEquiv L f' f'' := by
   obtain ⟨t, h1, h2⟩ := save_load_eq L f hv
   refine ⟨t, rtFont L f, h1, h2, ?_⟩
-  exact font_roundtrip L (rtFont L f) (rtFont_valid L f hv) (rtFont_numbers L f hn)
+  exact font_roundtrip L (rtFont L f) (rtFont_valid L N f hv) (rtFont_numbers L f hn)
 
 /-- whatever font is saved (also one that came from a format 1 or 2 tree: `load_impl` sets the format
     version to 3 before returning), the written metainfo says creator norad, formatVersion 3 -/
